@@ -309,6 +309,11 @@ def encoding_runner(prop, family, directions, opts=None, audits=(), large=frozen
             # beyond the exhaustive bounds: TLC simulation samples V(P) of larger random problems
             from families import large as F_large
             lp = F_large.fam_large(tier, seed)
+            if mixed:
+                from families import mixed as F_mixed2
+                for focus in mixed:
+                    lp = lp + F_mixed2.fam_mixed_large(tier, seed, focus, n=None if len(mixed) == 1 else (8 if tier == "thorough" else 3))
+                lp = F_tasks.number([json.loads(json.dumps(q)) for q in lp])
             res_l = engine.run_large(lp, {"seed": seed}, procs=procs, num=3000 if tier == "thorough" else 1200)
             viol += collect(prop, res_l, directions & large)
             cl = coverage_of(res_l)
@@ -359,12 +364,15 @@ def register():
     RUNNERS["C01"] = encoding_runner("C01", tasks.fam_C01, {S}, mixed=("basic",))
     RUNNERS["C02"] = encoding_runner("C02", tasks.fam_C02, {S}, audits=[("MC_Timeline_free.cfg", 40)], large=frozenset({S}),
                                      mixed=("basic",))
-    RUNNERS["C03"] = encoding_runner("C03", tasks.fam_C03, {S}, mixed=("task",))
-    RUNNERS["C04"] = encoding_runner("C04", resources.fam_C04, {S}, audits=[("MC_Timeline_decl.cfg", None)], mixed=("resource",))
-    RUNNERS["C06"] = encoding_runner("C06", optional.fam_C06, {S, Cm, "buffers", "indicators"}, mixed=("optional",))
+    RUNNERS["C03"] = encoding_runner("C03", tasks.fam_C03, {S}, mixed=("task",), large=frozenset({S}))
+    RUNNERS["C04"] = encoding_runner("C04", resources.fam_C04, {S}, audits=[("MC_Timeline_decl.cfg", None)], mixed=("resource",),
+                                     large=frozenset({S}))
+    RUNNERS["C06"] = encoding_runner("C06", optional.fam_C06, {S, Cm, "buffers", "indicators"}, mixed=("optional",),
+                                     large=frozenset({S, Cm}))
     RUNNERS["C08"] = encoding_runner("C08", indicators.fam_C08, {S, "indicators"}, mixed=("indicator",))
-    RUNNERS["C09"] = encoding_runner("C09", buffers.fam_C09, {S, "buffers"}, audits=[("MC_Timeline_free.cfg", 40)], mixed=("buffer",))
-    RUNNERS["C10"] = encoding_runner("C10", logic.fam_C10, {S, Cm}, mixed=("logic",))
+    RUNNERS["C09"] = encoding_runner("C09", buffers.fam_C09, {S, "buffers"}, audits=[("MC_Timeline_free.cfg", 40)], mixed=("buffer",),
+                                     large=frozenset({S}))
+    RUNNERS["C10"] = encoding_runner("C10", logic.fam_C10, {S, Cm}, mixed=("logic",), large=frozenset({S, Cm}))
     RUNNERS["C05"] = encoding_runner(
         "C05", union_family([tasks.fam_C01, tasks.fam_C02, tasks.fam_C03, resources.fam_C04,
                              optional.fam_C06, buffers.fam_C09, logic.fam_C10, _objective_pool], 150),
